@@ -34,4 +34,6 @@ class AbsmaxOptimizer(SymmetricOptimizer):
             dim = list(range(1, base.ndim)) if (axis == 0) else list(range(0, base.ndim - 1))
             rmax = torch.amax(torch.abs(base), dim=dim, keepdim=True)
         qmax = 2 ** (bits - 1) - 1
-        return rmax / qmax
+        # Avoid a null scale (all-zero or underflowing range) that would produce 0/0 quantized values
+        finfo = torch.finfo(base.dtype)
+        return torch.clamp(rmax / qmax, min=finfo.smallest_normal * finfo.eps)
